@@ -433,6 +433,13 @@ async fn run_buffered(plan: &LogPlan, o: &OracleRef) -> Value {
                 if prev_i == 0 {
                     continue; // the (0,0) form is a separate operation
                 }
+                if is18 && stale_boundary.is_some_and(|p| p.0 == prev_i) && model.term_at(prev_i).is_none() {
+                    // containment of known finding KF14 (C19's subject): a request whose prev is the purge boundary the
+                    // log should have forgotten at reset() would be accepted and leave entries above a hole; C18 does not
+                    // generate this enabling condition
+                    o.lock().unwrap().probe("c18_masked_request_at_stale_purge_boundary");
+                    continue;
+                }
                 let es: Vec<(u64, u64, u64)> = (from..(from + n).min(h.len() as u64 + 1))
                     .map(|i| (i, h[i as usize - 1], hist_pid(h[i as usize - 1], i)))
                     .collect();
